@@ -27,4 +27,16 @@ def atStartAfter (atStart : Bool) (s : Bytes) : Bool :=
   | none => atStart
   | some b => b == NL
 
+/-- Two stacked indenting writers (outer over inner over the sink), Write calls addressed to either
+(`true` = outer): an outer-addressed chunk is rendered with the outer prefix according to the outer
+line state, and whatever reaches the inner writer — that rendering, or an inner-addressed chunk as
+it is — is rendered with the inner prefix according to the inner line state. -/
+def nestedRender (p1 p2 : Bytes) : (ain aout : Bool) → List (Bool × Bytes) → Bytes
+  | _, _, [] => []
+  | ain, aout, (true, buf) :: rest =>
+    let mid := render p2 aout buf
+    render p1 ain mid ++ nestedRender p1 p2 (atStartAfter ain mid) (atStartAfter aout buf) rest
+  | ain, aout, (false, buf) :: rest =>
+    render p1 ain buf ++ nestedRender p1 p2 (atStartAfter ain buf) aout rest
+
 end Goyang.Spec.Indent
